@@ -152,6 +152,8 @@ pub struct Inc {
     imp_tx: Option<mpsc::UnboundedSender<Operation>>,
     remote: BTreeMap<(String, i64), Operation>,
     controlled: bool,
+    pub pre: Option<Value>,
+    explicit: bool,
 }
 
 impl Inc {
@@ -168,6 +170,20 @@ impl Inc {
             _ => AckPolicy::Automatic,
         };
         let db = cfg["db"].as_str().ok_or("cfg.db missing")?;
+        // free-running histories: state of the file as the dead process left it, read through a
+        // plain store before the node (and its replay with auto-acks) touches it
+        let pre = if cfg["preobserve"].as_bool().unwrap_or(false) {
+            let store = p2panda_store::SqliteStoreBuilder::new()
+                .database_url(&format!("sqlite://{db}"))
+                .build()
+                .await
+                .map_err(|e| format!("pre-observe: open store: {e}"))?;
+            let v = observe_store(&store, &ids, &gate).await?;
+            store.pool().close().await;
+            Some(v)
+        } else {
+            None
+        };
         let mut net = [0u8; 32];
         for (i, b) in unhex(cfg["net"].as_str().unwrap_or("")).iter().take(32).enumerate() {
             net[i] = *b;
@@ -228,6 +244,8 @@ impl Inc {
             imp_tx: None,
             remote,
             controlled,
+            pre,
+            explicit: matches!(policy, AckPolicy::Explicit),
         };
         if controlled {
             // the stream task parks at the first replayed operation or at the top of its loop
@@ -517,6 +535,112 @@ impl Inc {
         }
         let op = self.remote_op(a, seq).ok_or_else(|| format!("no remote operation {a}/{seq}"))?;
         self.imp_tx.as_ref().expect("session").send(op).map_err(|_| "import stream closed".to_string())
+    }
+
+    /// Free-running mode: receives everything up to the end of the replay. The end is marked by
+    /// the ImportStarted event of an (empty) import session, which the stream task only handles
+    /// once `replay_log_ranges` has returned.
+    pub async fn drain_replay(&mut self) -> Result<Value, String> {
+        let mut rx = self.rx.take().ok_or("application is busy")?;
+        let (tx, orx) = mpsc::unbounded_channel::<Operation>();
+        let publisher = self.tx.clone();
+        tokio::spawn(async move {
+            if let Ok(fut) = publisher.import(UnboundedReceiverStream::new(orx)).await {
+                let _ = fut.await;
+            }
+        });
+        self.imp_tx = Some(tx);
+        let mut replayed = Vec::new();
+        let mut others = Vec::new();
+        let mut markers = Vec::new();
+        let fut = async {
+            while let Some(ev) = rx.next().await {
+                if matches!(ev, StreamEvent::ImportStarted { .. }) {
+                    break;
+                }
+                match event_json(&self.ids, &ev) {
+                    Some(v) if v["k"] == "op" => replayed.push(v["op"].clone()),
+                    Some(v) if v["k"] == "rs" || v["k"] == "re" => markers.push(v["k"].clone()),
+                    Some(v) => others.push(v),
+                    None => {}
+                }
+            }
+        };
+        if tokio::time::timeout(STUCK_AFTER, fut).await.is_err() {
+            return Err("stuck: replay did not end".into());
+        }
+        self.rx = Some(rx);
+        Ok(json!({"replayed": replayed, "markers": markers, "others": others}))
+    }
+
+    /// Free-running mode: seeded random workload without schedule control. `emit` is called after
+    /// every COMPLETED call (the parent kills the process at a moment of its choosing).
+    pub async fn free_run(&mut self, arg: &Value, emit: &mut dyn FnMut(Value)) -> Result<(), String> {
+        let mut rng = vh_common::Rng::new(arg["seed"].as_u64().unwrap_or(1));
+        let n = arg["n"].as_u64().unwrap_or(50);
+        let mut rx = self.rx.take().ok_or("application is busy")?;
+        let obs = self.observe().await?;
+        let height = |a: &str, obs: &Value| -> i64 {
+            obs["stored"]
+                .as_array()
+                .into_iter()
+                .flatten()
+                .filter(|o| o["a"] == a && o["tp"] == "t")
+                .filter_map(|o| o["seq"].as_i64())
+                .max()
+                .unwrap_or(-1)
+        };
+        let mut my_next = height("me", &obs) + 1;
+        let mut fed: BTreeMap<&'static str, i64> = BTreeMap::new();
+        for r in ["r1", "r2"] {
+            fed.insert(r, height(r, &obs) + 1);
+        }
+        let mut received: Vec<Value> = Vec::new();
+        for _ in 0..n {
+            match rng.below(10) {
+                0..=3 => {
+                    let msg = format!("me-{my_next}");
+                    match self.tx.publish(msg).await {
+                        Ok(_) => emit(json!({"p": "pub", "seq": my_next})),
+                        Err(e) => return Err(format!("publish: {e}")),
+                    }
+                    my_next += 1;
+                }
+                4..=5 => {
+                    let r = if rng.chance(1, 2) { "r1" } else { "r2" };
+                    let next = fed[r];
+                    let seq = if next > 0 && rng.chance(1, 4) { rng.below(next as u64) as i64 } else { next };
+                    if self.remote_op(r, seq).is_some() {
+                        self.feed_remote(r, seq).await?;
+                        if seq == next {
+                            fed.insert(r, next + 1);
+                        }
+                        emit(json!({"p": "fed", "a": r, "seq": seq}));
+                    }
+                }
+                6..=7 => {
+                    while let Some(Some(ev)) = rx.next().now_or_never() {
+                        if let Some(v) = event_json(&self.ids, &ev) {
+                            if v["k"] == "op" {
+                                received.push(v["op"].clone());
+                            }
+                            emit(json!({"p": "recv", "ev": v}));
+                        }
+                    }
+                }
+                8 => {
+                    if !received.is_empty() && self.explicit {
+                        let op = rng.pick(&received).clone();
+                        let hash = self.hash_of(&op).await?;
+                        let r = rx.ack(hash).await;
+                        emit(json!({"p": "ack", "op": op, "res": ack_result(&r)}));
+                    }
+                }
+                _ => tokio::task::yield_now().await,
+            }
+        }
+        self.rx = Some(rx);
+        Ok(())
     }
 
     /// Next event of the subscription if one is ready NOW (import bookkeeping events skipped).
